@@ -130,6 +130,17 @@ def _mutate(name):
                         st.value = cc.template(r"re.compile(r'[&<\"\']').search", mode='eval')
                 return body
             cc.Compiler.visit_Module = visit_Module
+    elif name == 'digest_without_class':
+        from chameleon import template as ct
+        import inspect
+        import textwrap
+        src_fn = ct.BaseTemplate.digest
+        code = textwrap.dedent(inspect.getsource(src_fn))
+        new = code.replace("sha.update(class_name)", "pass")
+        assert new != code
+        ns = src_fn.__globals__
+        exec('from __future__ import annotations\n' + new, ns)
+        ct.BaseTemplate.digest = ns['digest']
     else:
         raise KeyError(name)
 
@@ -138,7 +149,14 @@ def prepare(cfg):
     if cfg.get('mutant'):
         _mutate(cfg['mutant'])
     text, quote, escaped = SITES[cfg['site']]
-    STATE['tpl'] = PageTemplate(text, translate=_translate)
+    if cfg.get('shared_cache'):
+        # the same source compiled as a text template first, both through one on-disk module cache
+        from chameleon import PageTextTemplate
+        from vlib.cachepair import compile_through_one_cache
+        STATE['tpl'] = compile_through_one_cache([(PageTextTemplate, text, {}),
+                                                  (PageTemplate, text, {'translate': _translate})])[1]
+    else:
+        STATE['tpl'] = PageTemplate(text, translate=_translate)
     if cfg.get('kind') == 'int':
         base = render(987654321)
         STATE['parts'] = base.split('987654321')
